@@ -38,6 +38,7 @@ InitSt == [hs |-> TRUE,            \* still in the opening handshake
            blkq |-> <<>>,          \* blocked-listener registrations sent, not yet handled
            ioev |-> 0,             \* number of I/O-thread records so far
            deadat |-> <<>>,        \* handle -> value of ioev when the model dropped its queues
+           cdropat |-> <<>>,       \* consumer -> value of ioev when the model dropped the sender of its queue
            proven |-> {},          \* handles that have themselves observed their queues gone
            prepop |-> <<>>,        \* handle -> reply it had already taken off its queue (see TFrame)
            frame_max |-> 131072]
@@ -59,8 +60,11 @@ TReset == /\ ResetStep
 \* whose slot the dispatch removes can still be seen alive by other threads.  A handle that
 \* the model dropped during the latest I/O-thread record is therefore only "maybe" dead.
 NewlyDead(a, b) == {h \in DOMAIN b.hs : b.hs[h].dead /\ (h \notin DOMAIN a.hs \/ ~a.hs[h].dead)}
+NewlyDroppedC(a, b) == {c \in DOMAIN b.cq : ~b.cq[c].tx /\ (c \notin DOMAIN a.cq \/ a.cq[c].tx)}
 IoStep(a, b) ==
     [st EXCEPT !.ioev = @ + 1,
+               !.cdropat = [c \in DOMAIN @ \cup NewlyDroppedC(a, b) |->
+                              IF c \in NewlyDroppedC(a, b) THEN st.ioev + 1 ELSE @[c]],
                !.deadat = [h \in DOMAIN @ \cup NewlyDead(a, b) |->
                              IF h \in NewlyDead(a, b) THEN st.ioev + 1 ELSE @[h]]]
 \* the same without counting an I/O-thread record (teardown: the channel slots are dropped after the
@@ -540,6 +544,19 @@ TCdisc ==
           /\ w' = x
           /\ UNCHANGED <<ops, st, seen>>
 
+\* A consumer's queue was found empty but still connected.  That is wrong once the I/O thread has dropped the
+\* queue's sender - the model did so at an I/O-thread record that has since been followed by another one (so the
+\* dispatch the sender was dropped in is over) - and everything queued has been read: a queue that has delivered
+\* its terminal message must end (iter() terminates, recv reports Disconnected), it must not block its reader.
+TCempty ==
+    /\ IsEv("cempty")
+    /\ LET c == Rec[l].c
+           settled == /\ Has(w.cq, c) /\ ~w.cq[c].unsure /\ ~w.cq[c].tx
+                      /\ Has(st.cdropat, c) /\ st.cdropat[c] < st.ioev
+                      /\ Seen("c:" \o c) >= Len(w.cq[c].q)
+       IN Step(<< <<"C11:disconnected", ~settled>> >>)
+    /\ UNCHANGED <<w, ops, st, seen>>
+
 \* at the end of a session every consumer queue must have ended
 TCopen ==
     /\ IsEv("copen")
@@ -684,7 +701,7 @@ TSkip == Skipping /\ Skip /\ UNCHANGED <<w, ops, st, seen>>
 Next == IF Skipping THEN TSkip
         ELSE \/ TReset \/ TCall \/ TRet \/ TChanmsg \/ TAlloc \/ TSetBlocked
              \/ TS2c \/ TFrame \/ TC2s
-             \/ TCmsg \/ TCdisc \/ TCopen \/ TLmsg \/ TLdisc \/ TLopen \/ TDropl
+             \/ TCmsg \/ TCdisc \/ TCempty \/ TCopen \/ TLmsg \/ TLdisc \/ TLopen \/ TDropl
              \/ TFault \/ TIo \/ THb \/ TStreamDrop \/ THang \/ TPanic \/ TIoGone \/ TEnd \/ TOpened \/ TNoop
 
 Spec == Init /\ [][Next]_vars
